@@ -1,1 +1,117 @@
-//! C09: split-on-&/= + RFC 3986 percent-decoding (reference model; to be written)
+//! C09 (and the input classifiers of C08): boring reference for `key=value&...` texts.
+//!
+//! * `split_pairs`   – split on `&`, then on the first `=` (nothing else is special)
+//! * `pct_decode`    – RFC 3986 section 2.1 percent-decoding, strict: a `%` that is not followed by two
+//!                     hex digits is *malformed* (the RFC does not define a decoding for it)
+//! * `pct_encode`    – encoder that escapes everything outside RFC 3986 `unreserved`
+//! * `decode_pairs`  – the two together, yielding strings (or the reason why there is no defined result)
+//!
+//! `+` is an ordinary character (RFC 3986; the property statement names RFC 3986, not the HTML form rules).
+
+#[derive(Debug, Clone, PartialEq, Eq)]
+pub enum Undefined {
+    /// `%` not followed by two hex digits
+    MalformedEscape,
+    /// the decoded bytes are not UTF-8 (no string value exists)
+    NotUtf8,
+    /// a part without `=`
+    NoEquals,
+}
+
+pub fn is_hex(b: u8) -> bool { b.is_ascii_hexdigit() }
+
+fn hex_val(b: u8) -> u8 {
+    match b { b'0'..=b'9' => b - b'0', b'a'..=b'f' => b - b'a' + 10, _ => b - b'A' + 10 }
+}
+
+/// true iff every `%` is followed by two hex digits
+pub fn escapes_well_formed(s: &[u8]) -> bool {
+    let mut i = 0;
+    while i < s.len() {
+        if s[i] == b'%' {
+            if i + 2 >= s.len() { return false } // fewer than two bytes follow
+            if !(is_hex(s[i + 1]) && is_hex(s[i + 2])) { return false }
+            i += 3;
+        } else { i += 1 }
+    }
+    true
+}
+
+/// strict RFC 3986 percent-decoding
+pub fn pct_decode(s: &[u8]) -> Result<Vec<u8>, Undefined> {
+    let mut out = Vec::with_capacity(s.len());
+    let mut i = 0;
+    while i < s.len() {
+        if s[i] == b'%' {
+            if i + 2 >= s.len() { return Err(Undefined::MalformedEscape) } // fewer than two bytes follow
+            if !(is_hex(s[i + 1]) && is_hex(s[i + 2])) { return Err(Undefined::MalformedEscape) }
+            out.push(hex_val(s[i + 1]) * 16 + hex_val(s[i + 2]));
+            i += 3;
+        } else { out.push(s[i]); i += 1 }
+    }
+    Ok(out)
+}
+
+pub fn pct_decode_str(s: &[u8]) -> Result<String, Undefined> {
+    String::from_utf8(pct_decode(s)?).map_err(|_| Undefined::NotUtf8)
+}
+
+/// escape everything outside ALPHA / DIGIT / "-" / "." / "_" / "~"
+pub fn pct_encode(s: &[u8]) -> String {
+    let mut out = String::with_capacity(s.len());
+    for &b in s {
+        if b.is_ascii_alphanumeric() || matches!(b, b'-' | b'.' | b'_' | b'~') { out.push(b as char) }
+        else { out.push_str(&format!("%{:02X}", b)) }
+    }
+    out
+}
+
+/// split on `&`, then each part on its first `=`; `None` value = the part has no `=`
+pub fn split_pairs(text: &[u8]) -> Vec<(&[u8], Option<&[u8]>)> {
+    if text.is_empty() { return Vec::new() }
+    text.split(|b| *b == b'&').map(|part| match part.iter().position(|b| *b == b'=') {
+        Some(n) => (&part[..n], Some(&part[n + 1..])),
+        None => (part, None),
+    }).collect()
+}
+
+/// the key/value pairs a well-formed text stands for
+pub fn decode_pairs(text: &[u8]) -> Result<Vec<(String, String)>, Undefined> {
+    let mut out = Vec::new();
+    for (k, v) in split_pairs(text) {
+        let v = v.ok_or(Undefined::NoEquals)?;
+        out.push((pct_decode_str(k)?, pct_decode_str(v)?));
+    }
+    Ok(out)
+}
+
+/// reference encoder for a list of pairs
+pub fn encode_pairs(pairs: &[(String, String)]) -> String {
+    pairs.iter().map(|(k, v)| format!("{}={}", pct_encode(k.as_bytes()), pct_encode(v.as_bytes()))).collect::<Vec<_>>().join("&")
+}
+
+/// self-test on hand-written examples (run by the engines before anything else; a failure is a machinery error)
+pub fn selftest() -> Result<(), String> {
+    let ck = |c: bool, m: &str| if c { Ok(()) } else { Err(format!("urlenc selftest: {m}")) };
+    ck(pct_decode(b"a%20b").unwrap() == b"a b", "a%20b")?;
+    ck(pct_decode(b"%41%4a%4A").unwrap() == b"AJJ", "hex case")?;
+    ck(pct_decode(b"+").unwrap() == b"+", "plus is literal")?;
+    ck(pct_decode(b"%4") == Err(Undefined::MalformedEscape), "%4")?;
+    ck(pct_decode(b"%") == Err(Undefined::MalformedEscape), "%")?;
+    ck(pct_decode(b"%zz") == Err(Undefined::MalformedEscape), "%zz")?;
+    ck(pct_decode(b"a%4") == Err(Undefined::MalformedEscape), "a%4")?;
+    ck(pct_decode(b"%41").unwrap() == b"A", "%41")?;
+    ck(pct_decode_str(b"%E3%81%82").unwrap() == "\u{3042}", "hiragana a")?;
+    ck(pct_decode_str(b"%FF") == Err(Undefined::NotUtf8), "%FF")?;
+    ck(escapes_well_formed(b"a%41b") && !escapes_well_formed(b"%4") && !escapes_well_formed(b"%4g") && escapes_well_formed(b"") && !escapes_well_formed(b"ab%"), "escapes_well_formed")?;
+    ck(pct_encode("a b&=%+,/\u{e9}~".as_bytes()) == "a%20b%26%3D%25%2B%2C%2F%C3%A9~", "encode")?;
+    ck(decode_pairs(b"a=1&b=%26&c=").unwrap() == vec![("a".into(), "1".into()), ("b".into(), "&".into()), ("c".into(), "".into())], "pairs")?;
+    ck(decode_pairs(b"").unwrap().is_empty(), "empty")?;
+    ck(decode_pairs(b"a") == Err(Undefined::NoEquals), "no equals")?;
+    ck(decode_pairs(b"a=b=c").unwrap() == vec![("a".into(), "b=c".into())], "first = splits")?;
+    ck(split_pairs(b"a=1&&b").len() == 3, "empty part kept")?;
+    for s in ["", "a", "a b", "&=%+", "\u{1F600}", "~-._"] {
+        ck(pct_decode_str(pct_encode(s.as_bytes()).as_bytes()).unwrap() == s, "encode/decode")?;
+    }
+    Ok(())
+}
